@@ -18,7 +18,8 @@ def graph_clustering(adjacency_matrix, nodes, clustering='cc', **kwargs):
 
     Returns: DataFrame with columns seq, cluster assignment 
     """
-    edges = np.array(adjacency_matrix)[:, :2]
+    # reshape so that an empty neighbor list (all nodes isolated) gives zero edges
+    edges = np.array(adjacency_matrix).reshape(-1, 3)[:, :2]
 
     if clustering == 'DBSCAN':
         a = adjacency_matrix
